@@ -170,6 +170,7 @@ fn search_parallel(args: &HiArgs, mode: SearchMode) -> anyhow::Result<bool> {
     let stats = args.stats().map(std::sync::Mutex::new);
     let matched = AtomicBool::new(false);
     let searched = AtomicBool::new(false);
+    let broken_pipe = AtomicBool::new(false);
 
     let mut searcher = args.search_worker(
         args.matcher()?,
@@ -181,6 +182,7 @@ fn search_parallel(args: &HiArgs, mode: SearchMode) -> anyhow::Result<bool> {
         let stats = &stats;
         let matched = &matched;
         let searched = &searched;
+        let broken_pipe = &broken_pipe;
         let haystack_builder = &haystack_builder;
         let mut searcher = searcher.clone();
 
@@ -208,6 +210,7 @@ fn search_parallel(args: &HiArgs, mode: SearchMode) -> anyhow::Result<bool> {
             if let Err(err) = bufwtr.print(searcher.printer().get_mut()) {
                 // A broken pipe means graceful termination.
                 if err.kind() == std::io::ErrorKind::BrokenPipe {
+                    broken_pipe.store(true, Ordering::SeqCst);
                     return WalkState::Quit;
                 }
                 // Otherwise, we continue on our merry way.
@@ -220,6 +223,12 @@ fn search_parallel(args: &HiArgs, mode: SearchMode) -> anyhow::Result<bool> {
             }
         })
     });
+    if broken_pipe.load(Ordering::SeqCst) {
+        // As in the single threaded search, let `main` deal with it, so that
+        // the exit status doesn't depend on whether anything had matched.
+        let err = std::io::Error::from(std::io::ErrorKind::BrokenPipe);
+        return Err(err.into());
+    }
     if args.has_implicit_path() && !searched.load(Ordering::SeqCst) {
         eprint_nothing_searched();
     }
